@@ -4,7 +4,7 @@ from __future__ import annotations
 from htmltools import HTMLDependency, HTMLDocument, Tag, TagList, head_content
 
 from engine.api import conc, concrete, harness, pick
-from oracles.document import spec_document
+from oracles.document import norm_attr_order, spec_document
 
 N_SHAPE = 10
 N_POOL = 7
@@ -72,7 +72,7 @@ def _doc_body(shape: int, i0: int, p0: int, i1: int, p1: int, cfg: int) -> bool:
     r = doc.render(lib_prefix=prefix, include_version=iv)
     flat = list(TagList(*content))
     want_html, want_deps = spec_document(flat, attrs, prefix, iv)
-    if r["html"] != want_html:
+    if r["html"] != want_html and norm_attr_order(r["html"]) != norm_attr_order(want_html):
         return False
     got = r["dependencies"]
     if len(got) != len(want_deps):
